@@ -149,6 +149,9 @@ def annotate_functions(prog, fnames, push_pop, finfo):
             i["cal"] = {"ar": fi["nargs"], "pp": bool(push_pop)}
         elif m and m.group(1).startswith("lbfor.body"):
             i["cal"] = {"ar": 0, "pp": False}
+        mt = re.match(r"\s*j\s+(\S+)", i["ln"])
+        if mt and mt.group(1) in fnames and cur is not None:
+            i["tc"] = True                       # a tail call: `j f` inside the body of another function
         if i["op"] == "j" and re.match(r"\s*j\s+ra\b", i["ln"]):
             nxt = prog[k + 1] if k + 1 < len(prog) else None
             if nxt is not None and nxt["op"] == "label" and nxt.get("lab", "").startswith("lbfor.end"):
